@@ -1410,6 +1410,20 @@ func (g *gen) lateColumn() {
 }
 
 func genStoreCase(r *rand.Rand, p profile, rep *Report, id int) Case {
+	if p.name == "C11" {
+		// "no stale data at a reused offset" includes what the computed columns keep per offset: a third of the
+		// histories run with a sorted index and bitmap indexes, a third with a key column
+		switch r.Intn(3) {
+		case 0:
+			p.wSort, p.wIndex, p.wBulk = 100, 3, 1 // few bulk loads: the sorted index (and its model) pays per entry
+			rep.count("C11 variant=sorted+indexes")
+		case 1:
+			p.wKey, p.wIndex, p.wBulk = 100, 1, 1
+			rep.count("C11 variant=key")
+		default:
+			rep.count("C11 variant=plain")
+		}
+	}
 	g := &gen{r: r, p: p, impl: newStoreImpl().(*storeImpl), feats: map[string]bool{}, rep: rep, live: map[uint32]bool{}, idxOn: map[string]string{},
 		hasVal: map[uint32]map[string]bool{}, txnRes: map[string]bool{}, txnSet: map[string]bool{}}
 	defer g.impl.Close()
